@@ -506,37 +506,79 @@ def rule_absorb_keyed(ctx):
         raise AnalysisError("gate_with_auto_swap not found")
     where = f"{h.module.relpath}:{h.lineno}"
     gs = [c for c in ast.walk(h.node) if isinstance(c, ast.Call) and isinstance(c.func, ast.Attribute) and c.func.attr in ("gate_split_", "gate_split")]
-    if len(gs) != 1:
-        raise AnalysisError("gate_with_auto_swap: the single gate_split_ call was not found")
-    kws = {k.arg: k.value for k in gs[0].keywords if k.arg}
-    wv, av = kws.get("where"), kws.get("absorb")
-    if not (isinstance(wv, ast.Name) and isinstance(av, ast.Name)):
-        raise AnalysisError("gate_with_auto_swap: where= / absorb= of gate_split_ are not locals")
-    centres = []
-    for n in ast.walk(h.node):
-        if isinstance(n, ast.If):
-            arms = []
-            for arm in (n.body, n.orelse):
-                wdef = [st.value for st in arm if isinstance(st, ast.Assign) and isinstance(st.targets[0], ast.Name) and st.targets[0].id == wv.id]
-                adef = [st.value for st in arm if isinstance(st, ast.Assign) and isinstance(st.targets[0], ast.Name) and st.targets[0].id == av.id]
-                if wdef and adef:
-                    arms.append((wdef[-1], adef[-1]))
-            if len(arms) == 2:
-                for wd, ad in arms:
-                    pair = _pair_of(wd)
-                    side = const_value(ad, None)
-                    if pair is None or side not in ("left", "right"):
-                        centres.append(None)
-                    else:
-                        centres.append(pair[0] if side == "left" else pair[1])
-    post = [st for st in h.node.body if isinstance(st, ast.Assign) and st.lineno > gs[0].lineno and isinstance(st.targets[0], ast.Subscript) and const_value(st.targets[0].slice, None) == "cur_orthog"]
-    rec = _pair_of(post[0].value) if post else None
-    if len(centres) == 2 and None not in centres and centres[0] == centres[1] and rec == (centres[0], centres[0]):
-        r.ok("gate_with_auto_swap[absorb]", sample={"absorbing site (both orientations)": centres[0], "record": rec})
-    else:
-        r.bad(Finding("absorb-keyed", h.qualname,
-                      f"the site that absorbs the singular values is {centres} in the two orientations and the record stored after the split is {rec}: "
-                      "they must all name the same site", where=where))
+    if not gs:
+        raise AnalysisError("gate_with_auto_swap: no gate_split_ call found")
+    parents = {}
+    for p_ in ast.walk(h.node):
+        for c_ in ast.iter_child_nodes(p_):
+            parents[c_] = p_
+
+    def block_of(node):
+        q = node
+        while q in parents:
+            par = parents[q]
+            for fld in ("body", "orelse", "finalbody"):
+                lst = getattr(par, fld, None)
+                if isinstance(lst, list) and q in lst:
+                    return lst, lst.index(q)
+            q = par
+        return None, None
+
+    def values_of(name_or_expr):
+        """possible (where-pair | absorb-literal) values: a literal, or per-branch assignments of a local."""
+        if not isinstance(name_or_expr, ast.Name):
+            return [name_or_expr]
+        out = []
+        for n in ast.walk(h.node):
+            if isinstance(n, ast.Assign) and isinstance(n.targets[0], ast.Name) and n.targets[0].id == name_or_expr.id:
+                out.append(n.value)
+        return out
+
+    for call in gs:
+        kws = {k.arg: k.value for k in call.keywords if k.arg}
+        wv, av = kws.get("where", call.args[1] if len(call.args) > 1 else None), kws.get("absorb")
+        construct = f"gate_with_auto_swap[gate_split_@{src_of(wv) if wv is not None else '?'}]"
+        cwhere = f"{h.module.relpath}:{call.lineno}"
+        # record stored after this call in the same block
+        blk, pos = block_of(call)
+        post = [st for st in (blk[pos + 1:] if blk else []) if isinstance(st, ast.Assign) and isinstance(st.targets[0], ast.Subscript) and const_value(st.targets[0].slice, None) == "cur_orthog"]
+        rec = post[0].value if post else None
+        if rec is not None and isinstance(rec, ast.Constant) and rec.value is None:
+            r.ok(construct, sample={"gate_split_ on": src_of(wv), "record": "None (no claim)"}, nontrivial=False)
+            continue
+        recp = _pair_of(rec) if rec is not None else None
+        # enumerate the orientations: where / absorb assigned together in the two arms of one `if`
+        combos = []
+        if isinstance(wv, ast.Name) or isinstance(av, ast.Name):
+            for n in ast.walk(h.node):
+                if isinstance(n, ast.If):
+                    arms = []
+                    for arm in (n.body, n.orelse):
+                        wdef = [st.value for st in arm if isinstance(st, ast.Assign) and isinstance(st.targets[0], ast.Name) and isinstance(wv, ast.Name) and st.targets[0].id == wv.id]
+                        adef = [st.value for st in arm if isinstance(st, ast.Assign) and isinstance(st.targets[0], ast.Name) and isinstance(av, ast.Name) and st.targets[0].id == av.id]
+                        if wdef or adef:
+                            arms.append((wdef[-1] if wdef else wv, adef[-1] if adef else av))
+                    if len(arms) == 2:
+                        combos = arms
+        if not combos:
+            combos = [(wv, av)]
+        centres = []
+        for wd, ad in combos:
+            pair = _pair_of(wd) if wd is not None else None
+            side = const_value(ad, None) if ad is not None else None
+            if pair is None or side not in ("left", "right"):
+                centres.append(None)
+            else:
+                centres.append(pair[0] if side == "left" else pair[1])
+        if None in centres:
+            r.skip(construct, f"where={src_of(wv) if wv is not None else None} / absorb={src_of(av) if av is not None else None} not resolved to (pair, side) in every orientation")
+            continue
+        if len(set(centres)) == 1 and recp == (centres[0], centres[0]):
+            r.ok(construct, sample={"absorbing site (every orientation)": centres[0], "record": recp})
+        else:
+            r.bad(Finding("absorb-keyed", h.qualname,
+                          f"the site that absorbs the singular values is {centres} in the possible orientations and the record stored after the split is {recp}: "
+                          "they must all name the same site (otherwise a non-isometric tensor lies inside the recorded canonical range)", where=cwhere, operand="auto-swap"))
     return r
 
 
